@@ -123,8 +123,9 @@ def run(ctx):
             ctx.check(pat == "(%s, %s)" % (s1, s2), RP, "drain_to::segments-in-ring-order", b["file"],
                       "first sink call gets the first ring segment, second the second", observed=[pat, s1, s2])
             defs = {x["pat"]["name"]: pv(x["init"]) for x in hq.find(b["body"], lambda x: x.get("k") == "LetStmt" and x["pat"].get("k") == "Bind" and x.get("init"))}
-            ok = defs.get(n1, "").startswith("core::cmp::Ord::min(core::slice::len(") and defs[n1].endswith(", $0)") and \
-                defs.get(n2, "").startswith("core::cmp::Ord::min(core::slice::len(") and defs[n2].endswith(", ($0 - %s))" % defs[n1])
+            d1, d2 = defs.get(n1, ""), defs.get(n2, "")
+            ok = d1.startswith("core::cmp::Ord::min($0, core::slice::len(") and d1.endswith(".0))") and \
+                d2.startswith("core::cmp::Ord::min(($0 - %s), core::slice::len(" % d1) and d2.endswith(".1))")
             ctx.check(ok, RP, "drain_to::amounts", b["file"], "n1 = min(len1, amount), n2 = min(len2, amount - n1)",
                       observed={n1: defs.get(n1), n2: defs.get(n2)})
             conds2 = dom.conds(ix, c2)
